@@ -11,6 +11,11 @@ NOTE = ("Trusted: Lean 4.33 kernel + axioms propext/Classical.choice/Quot.sound 
         "(real code vs compiled model on the same cases); CPython/stdlib semantics re-expressed in the model. ")
 
 CHECKS = {
+    "C17": dict(
+        text="The option tables of Lithium's two argparse parsers are REGENERATED from the live parser objects on every run (lean/Generated/CmdlineTable.lean). Theorems: C17_generated_wf (decide: every generated table has a single REMAINDER positional — changing nargs breaks this obligation), C17_tail_isolation (for EVERY table of that shape, every sequence of option blocks before the first non-option token and EVERY tail: the namespace and any error are independent of the tail and the tail is handed over verbatim), C17_name_is_positional, C17_early_never_ambiguous, C17_testcase_choice, C17_import_order, C17_syspath; recorded findings as theorems: C17_early_swallow_counterexample, C17_tail_ambiguous_counterexample. The argparse port is tied to CPython's argparse + process_args by differential execution on argv = pre x name x tail (attached, two-token, abbreviated, clustered, invalid options; hostile tails); resolution order and sys.path on real directories.",
+        note=NOTE + "The port of argparse 3.12 is a model of a library validated only by the correspondence; the import system is modelled abstractly. Three recorded findings (early-parser swallow, ambiguous prefix in the tail, importable stem).",
+        technique="table regeneration from live parsers + Lean 4 proof (locality of option blocks, induction over blocks) + differential execution of process_args",
+        ref="§4 C17"),
     "C16": dict(
         text="Theorems on the Lean models of TestcaseJsStr / TestcaseAttrs.split_parts: C16_js_partition (header ++ parts ++ footer = data, one flag per part), C16_js_token_progress (the escape grammar consumes 1..len bytes), C16_attrs_partition (parts partition the data, are non-empty, one flag each; never raises) — with step_inv / loop_inv over the two-state loop and scan/outer/mergeLoop lemmas. The exactness clauses (reducible JS atoms = characters and complete escapes of terminated strings; every reducible attribute atom is one complete attribute inside a tag) are decided by the monitor against an independent hand-written reference tokenizer / structural specification on every string up to length 5/6 over adversarial alphabets plus grammar-directed and marker-bearing streams; the models are tied to the code field by field on the same inputs.",
         note=NOTE + "Partial: exactness vs the reference tokenizer / attribute shape is monitor + correspondence, not a theorem.",
